@@ -304,6 +304,7 @@ func c02Script(c *Ctx) {
 			return true
 		}
 		nops := 20 + r.IntN(c.N(60, 180))
+		quietLeft, pendingChanged := 0, false
 		for s := 0; s < nops; s++ {
 			id := pick(r, c02Identities)
 			u := c02Variant(r, id)
@@ -347,6 +348,7 @@ func c02Script(c *Ctx) {
 					script = append(script, sfmt("upsert(%s,w=-1)", u.String()))
 					err = t.upsert(u, roundrobin.Weight(-1))
 				}
+				quietLeft, pendingChanged = 0, false
 				c.Count("rejected_upserts_checked", 1)
 				if err == nil {
 					fail("upsert/invalid-accepted", "UpsertServer with a negative weight returned nil")
@@ -408,12 +410,24 @@ func c02Script(c *Ctx) {
 				}
 			default:
 				script = append(script, "rotation")
+				quietLeft, pendingChanged = 0, false
 				if !check(false) || !rotation() {
 					return
 				}
 				continue
 			}
 			c.Count("admin_ops", 1)
+			if quietLeft > 0 { // a batch of administration calls with nothing observed in between
+				quietLeft--
+				pendingChanged = pendingChanged || changed
+				c.Count("admin_ops_unobserved", 1)
+				continue
+			}
+			if r.IntN(5) == 0 {
+				quietLeft = 1 + r.IntN(3)
+			}
+			changed = changed || pendingChanged
+			pendingChanged = false
 			if !check(changed) {
 				return
 			}
